@@ -539,6 +539,7 @@ func runC10(c *Ctx) {
 			rs.Close()
 		}
 	}
+	c10ReplyMaps(c)
 	// (d) errors returned by handlers reach a real client unchanged in kind
 	for _, s := range specs {
 		if s.base == "nil" || (s.base == "errno" && s.errno > 14) {
